@@ -1,9 +1,9 @@
 #!/bin/bash
 # reseed_all.sh <seeds...> : every seeded change against the check of its own property at the given seeds
-# (detection must not hinge on seed 0). Output: one line per (change, seed).
+# (detection must not hinge on seed 0); env ONLY=<glob of seeded ids>, OWN=<check to use instead of the change's own, e.g. C17>. Output: one line per (change, seed).
 cd /verif
-for d in seeded/C*/; do
-  id=$(basename $d); p=${id:0:3}
+for d in seeded/${ONLY:-C*}/; do
+  id=$(basename $d); p=${OWN:-${id:0:3}}
   patch=$d/patch.diff; [ -f $d/patch.rebased.diff ] && patch=$d/patch.rebased.diff
   if ! git -C /repo apply --check $(realpath $patch) 2>/dev/null; then echo "$id - does_not_apply"; continue; fi
   SEEDS="$*" py/tools/eval_mutant.sh $(realpath $patch) $p 2>&1 | grep "^== seed" | while read -r line; do echo "$id $line"; done
